@@ -1301,6 +1301,15 @@ int32 matrixClearSession(ssl_t *ssl, int32 remove)
         return PS_LIMIT_FAIL;
     }
     psLockMutex(&g_sessionTableLock);
+    if (ssl->sessionIdLen != SSL_MAX_SESSION_ID_SIZE ||
+        Memcmp(g_sessionTable[i].id, id, SSL_MAX_SESSION_ID_SIZE) != 0 ||
+        g_sessionTable[i].inUse <= 0)
+    {
+        /* The entry the first four id bytes point at is not (or no longer)
+           held by this session: leave it alone */
+        psUnlockMutex(&g_sessionTableLock);
+        return PS_LIMIT_FAIL;
+    }
     g_sessionTable[i].inUse -= 1;
     if (g_sessionTable[i].inUse == 0)
     {
@@ -1430,6 +1439,15 @@ int32 matrixUpdateSession(ssl_t *ssl)
     If there is an error on the session, invalidate for any future use
  */
     psLockMutex(&g_sessionTableLock);
+    if (ssl->sessionIdLen != SSL_MAX_SESSION_ID_SIZE ||
+        Memcmp(g_sessionTable[i].id, id, SSL_MAX_SESSION_ID_SIZE) != 0 ||
+        g_sessionTable[i].inUse <= 0)
+    {
+        /* The entry the first four id bytes point at is not (or no longer)
+           held by this session: leave it alone */
+        psUnlockMutex(&g_sessionTableLock);
+        return PS_LIMIT_FAIL;
+    }
     g_sessionTable[i].inUse += ssl->flags & SSL_FLAGS_CLOSED ? -1 : 0;
     if (g_sessionTable[i].inUse == 0)
     {
